@@ -1143,6 +1143,8 @@ def r04f(an, rep, rule="R04.W"):
         ("a function with a cell variable", FN, 1, 0, 0, ("a",), (None,), ("a",), "outer", ((), ("a",), None, (), None), None, None),
         ("a module", ("NOFREE",), 0, 0, 0, (), ("doc", None), (), "<module>", "nofunc", None, None),
         ("a class body that owns the __class__ cell", (), 0, 0, 0, (), ("C", None), ("__class__",), "C", "nofunc", None, None),
+        ("a class body inside a function that reads a local of that function", ("NESTED",), 0, 0, 0, (), ("C", None), ((), ("x",)), "C", "nofunc", None, None),
+        ("a nested function that reads a local of the enclosing function", FN + ("NESTED",), 1, 0, 0, ("a",), (None,), ((), ("x", "y")), "inner", ((), ("a",), None, (), None), None, None),
     ]
     for V in VERSIONS:
         R = _ref(V)
@@ -1168,11 +1170,14 @@ def r04f(an, rep, rule="R04.W"):
                 posonly_attr = {}
             else:
                 posonly_attr = {"co_posonlyargcount": posonly}
+            freevars = ()
+            if len(cellvars) == 2 and isinstance(cellvars[0], tuple):
+                cellvars, freevars = cellvars
             word = 0
             for f_ in flags:
                 word |= val_of[f_]
             codeb = bytes([om["LOAD_CONST"], len(consts) - 1, om["RETURN_VALUE"], 0])
-            code = Obj({"__cls__": "code", "co_code": codeb, "co_consts": tuple(consts), "co_names": (), "co_varnames": tuple(varnames), "co_freevars": (), "co_cellvars": tuple(cellvars),
+            code = Obj({"__cls__": "code", "co_code": codeb, "co_consts": tuple(consts), "co_names": (), "co_varnames": tuple(varnames), "co_freevars": tuple(freevars), "co_cellvars": tuple(cellvars),
                         "co_flags": word, "co_argcount": argc, "co_kwonlyargcount": kwonly, "co_nlocals": len(varnames), "co_stacksize": 1, "co_filename": "f.py", "co_name": coname,
                         "co_firstlineno": 3, **posonly_attr})
             if V >= (3, 10):
